@@ -16,7 +16,7 @@ EXPLANATION = (
     'routines store only to constant ranges inside the product\'s NDEF area with matching value lengths (Topaz, Topaz-512, '
     'NTAG pages 4/5), never to UID / lock / OTP / reserved bytes; R3 the write-back writes only units whose cached content '
     'differs (shared with C02-R3), so untouched bytes keep their values; R4 the Type 4 wipe is bounded by the capacity and '
-    'starts after NLEN, Type 3 writes address blocks 1..ceil(len/16) only.  That value bytes stay below the data-area end '
+    'starts after NLEN, Type 3 writes address blocks 1..ceil(len/16) only, no UPDATE BINARY of the folded Type 4 writer addresses a byte outside 0..NLEN size + length.  That value bytes stay below the data-area end '
     'for every layout follows from the capacity computation (value level) and is not decided here.')
 
 
